@@ -159,7 +159,34 @@ func lastSeg(s string) string {
 
 var reNum = regexp.MustCompile(`:\d+`)
 
-func normFresh(s string) string { return reNum.ReplaceAllString(s, ":#") }
+func normFresh(s string) string { return reNum.ReplaceAllString(canonElem(s), ":#") }
+
+// canonElem rewrites "T[l:rangekey:L:T]" (the table indexed by the key of the loop ranging it) to the loop element
+// "elem(T)#L": the two spell the same value.
+func canonElem(s string) string {
+	const mark = "[l:rangekey:"
+	for from := 0; ; {
+		i := strings.Index(s[from:], mark)
+		if i < 0 {
+			return s
+		}
+		i += from
+		rest := s[i+len(mark):]
+		c := strings.Index(rest, ":")
+		e := strings.Index(rest, "]")
+		if c < 0 || e < 0 || c > e {
+			from = i + len(mark)
+			continue
+		}
+		loop, table := rest[:c], rest[c+1:e]
+		if table == "" || !strings.HasSuffix(s[:i], table) {
+			from = i + len(mark)
+			continue
+		}
+		s = s[:i-len(table)] + "elem(" + table + ")#" + loop + rest[e+1:]
+		from = 0
+	}
+}
 
 func rulePool(c *RC) *RuleResult {
 	r := &RuleResult{Rule: "P-POOL", Kind: "PROV", Doc: "builder: TransactionHashes = make(len(pool)); hashes[i] = pool[i].Hash(); Transactions[hash] = pool[i] with i the range index over the pool result"}
@@ -191,8 +218,16 @@ func rulePool(c *RC) *RuleResult {
 			case s.Loc == "ctx.TransactionHashes" && sn.Idx != nil:
 				r.Sites++
 				k := sn.Idx.S
-				want := "Transaction.Hash(l:cbres:GetVerified:#[" + normFresh(k) + "])"
-				if strings.HasPrefix(sn.Idx.Name, "rangekey:") && sn.Val != nil && normFresh(sn.Val.S) == want {
+				_ = k
+				okHash := false
+				if strings.HasPrefix(sn.Idx.Name, "rangekey:") && sn.Val != nil {
+					// hashes[i] for the key i of the loop over the pool result: the value is Hash() of that loop's element
+					parts := strings.SplitN(strings.TrimPrefix(sn.Idx.Name, "rangekey:"), ":", 2)
+					if len(parts) == 2 {
+						okHash = normFresh(sn.Val.S) == normFresh("Transaction.Hash(elem("+parts[1]+")#"+parts[0]+")") && strings.HasPrefix(normFresh(parts[1]), "l:cbres:GetVerified:#")
+					}
+				}
+				if okHash {
 					sawHash = true
 					r.ok("TransactionHashes[i] = pool[i].Hash()")
 				} else {
@@ -200,8 +235,7 @@ func rulePool(c *RC) *RuleResult {
 				}
 			case s.Loc == "ctx.Transactions" && sn.Idx != nil:
 				r.Sites++
-				if sn.Val != nil && sn.Val.K == KIndex && strings.HasPrefix(sn.Val.Args[1].Name, "rangekey:") &&
-					normFresh(sn.Idx.S) == "Transaction.Hash("+normFresh(sn.Val.S)+")" && strings.HasPrefix(normFresh(sn.Val.S), "l:cbres:GetVerified:#[") {
+				if sn.Val != nil && normFresh(sn.Idx.S) == "Transaction.Hash("+normFresh(sn.Val.S)+")" && strings.HasPrefix(normFresh(sn.Val.S), "elem(l:cbres:GetVerified:#)#L") {
 					sawTx = true
 					r.ok("Transactions[pool[i].Hash()] = pool[i]")
 				} else {
@@ -472,12 +506,12 @@ func ruleRecoveryBuild(c *RC) *RuleResult {
 				continue
 			}
 			for _, sn := range s.Snaps {
-				if len(sn.Args) != 1 || sn.Args[0].K != KElem || sn.Args[0].Args[0].K != KParam {
+				if len(sn.Args) != 1 || elemTable(sn.Args[0]) == nil || elemTable(sn.Args[0]).K != KParam {
 					continue
 				}
 				only := true
 				for _, l := range condLits(s) {
-					if !strings.HasPrefix(l.A.S, "elem(") {
+					if !strings.HasPrefix(canonElem(l.A.S), "elem(") {
 						only = false
 					}
 				}
@@ -485,7 +519,7 @@ func ruleRecoveryBuild(c *RC) *RuleResult {
 					continue
 				}
 				for j, p := range g.Params {
-					if p.Name() == sn.Args[0].Args[0].Name {
+					if p.Name() == elemTable(sn.Args[0]).Name {
 						return j
 					}
 				}
@@ -499,8 +533,8 @@ func ruleRecoveryBuild(c *RC) *RuleResult {
 		}
 		if s.Callee == "if:RecoveryMessage.AddPayload" {
 			for _, sn := range s.Snaps {
-				if len(sn.Args) == 1 && sn.Args[0].K == KElem {
-					adds = append(adds, add{s, sn.Args[0].Args[0].S, condLits(s)})
+				if len(sn.Args) == 1 && elemTable(sn.Args[0]) != nil {
+					adds = append(adds, add{s, elemTable(sn.Args[0]).S, condLits(s)})
 				}
 			}
 			continue
@@ -527,7 +561,7 @@ func ruleRecoveryBuild(c *RC) *RuleResult {
 			// allowed conditions for reaching the site: element != nil, and (for commits) the own-(pre)commit predicate
 			bad := ""
 			for _, l := range ad.conds {
-				k := l.A.S
+				k := canonElem(l.A.S)
 				switch {
 				case strings.HasPrefix(k, "elem("):
 				case want != "" && (k == want || k == "ctx.MyIndex<0" || k == "cfg.WatchOnly()"):
@@ -585,7 +619,11 @@ func ruleRecoveryReplay(c *RC) *RuleResult {
 				for _, sn := range s.Snaps {
 					if len(sn.Args) == 1 {
 						for i, p := range fn.Params {
-							if strings.Contains(sn.Args[0].S, "p:"+p.Name()+")") || strings.HasSuffix(sn.Args[0].S, "p:"+p.Name()) {
+							a0 := sn.Args[0]
+							if a0.K == KIndex && a0.Args[0].K == KParam && a0.Args[0].Name == p.Name() {
+								out[i] = true // an element of the slice parameter, by whatever index
+							}
+							if as := canonElem(a0.S); strings.Contains(as, "p:"+p.Name()+")") || strings.HasSuffix(as, "p:"+p.Name()) {
 								out[i] = true
 							}
 						}
